@@ -174,7 +174,7 @@ def _judge(fn, sig, rng, rec, fam, label, base_exports: bool) -> str:
         msg = f"{type(exc).__name__}: {str(exc)[:160]}"
         import re as _re
 
-        if isinstance(exc, (ValueError, TypeError)) and _re.search(r"(not supported|unsupported|only supports|expected \d+ dims|does not support|cannot be exported)", str(exc), _re.I):
+        if isinstance(exc, (ValueError, TypeError)) and _re.search(r"(not supported|unsupported|only supports|expected \d+ dims|expects? rank|does not support|cannot be exported)", str(exc), _re.I):
             rec["obs"]["explicitly_rejected"] = rec["obs"].get("explicitly_rejected", 0) + 1
             return "rejected"
         if base_exports:
